@@ -391,6 +391,7 @@ func hasOperand(op vm.Opcode) bool {
 		vm.OpCall:        true,
 		vm.OpBuildObject: true,
 		vm.OpBuildArray:  true,
+		vm.OpAsync:       true, // body length; without it the length bytes were decoded as instructions
 	}
 	return withOperand[op]
 }
